@@ -16,7 +16,7 @@ RULE = (
     "crossed with call in {left,right,none} x stop in {yes,no} per contest, alphas {0.7,0.9}; every (pattern,status) on the first contest x every (pattern,status) on the second (quick: every 4th pattern there), third "
     "contest cycling (thorough: all triples over a reduced pattern set). Oracle = the statement row by row; uncalled, unstopped rows bit-identical to the "
     "run with empty lists. (b) every way of naming a contest for both parties or naming an unknown contest in each of the three lists, state and district "
-    "contests => BootstrapElectionModelException. (c) real client, every (call, stop) assignment of two states (36) with and without finer aggregates, and of a third contest that exists only through an unexpected unit without votes (0/0 margin); a district office with every (call, stop) assignment of two of its six contests, judged on both tables that list contests; every two-run history of a driver that keeps its three list objects and edits them between runs (36 x 2 stop lists), judged against the caller's own copy of its lists. "
+    "contests => BootstrapElectionModelException. (c) real client, every (call, stop) assignment of two states (36) with and without finer aggregates, the three lists handed over as list / tuple / set / frozenset in rotation, and of a third contest that exists only through an unexpected unit without votes (0/0 margin); a district office with every (call, stop) assignment of two of its six contests, judged on both tables that list contests; every two-run history of a driver that keeps its three list objects and edits them between runs (36 x 2 stop lists), judged against the caller's own copy of its lists. "
     "non-trivial = at least one contest is called or stopped"
 )
 ASSUMPTIONS = ["B = 2 draws are enough to realise any (lower, pred, upper) target because the interval is pred minus two order statistics of the draws"]
@@ -238,8 +238,11 @@ def _client(case, cov, viol):
         cov["client_runs_with_unsorted_input_rows"] += 1
     cfg = dict(base_cfg, lhs=lhs, rhs=rhs, stop=stp)
     a = E.run_estimates(units, base_cfg)
-    b = E.run_estimates(units, cfg)
-    ctx = f"client finer={case['finer']} input_row_order={order or 'sorted'} " + " ".join(f"{n}={st}" for n, st in contests)
+    # the kind of collection the three lists arrive in is not information (list / tuple / set / frozenset)
+    cont = (list, tuple, set, frozenset)[(case["status"][0] + 3 * case["status"][1] + int(case["finer"])) % 4]
+    cov[f"client_runs_lists_as_{cont.__name__}"] += 1
+    b = E.run_estimates(units, cfg, kwargs_override={"lhs_called_contests": cont(lhs), "rhs_called_contests": cont(rhs), "stop_model_call": cont(stp)})
+    ctx = f"client finer={case['finer']} input_row_order={order or 'sorted'} lists_as={cont.__name__} " + " ".join(f"{n}={st}" for n, st in contests)
     if "error" in a:
         raise RuntimeError(a)
     if "error" in b:
